@@ -22,7 +22,7 @@ ASSUMPTIONS = ['tolerance = level * (Lipschitz(profile) * 64 ulp(fmax) + 1e-9)',
                'Voigt FWHM from the 0.5346/0.2166 approximation']
 REQUIRED_CLASSES = ['drift<0', 'drift=0', 'drift>0', 'smear', 'nosmear', 'width<0.5', 'width<1', 'width>=1',
                     'start=inside', 'start=edge', 'start=outside', 'type=box', 'type=sinc2', 'type=gaussian',
-                    'type=lorentzian', 'type=voigt', 'visible', 'quantity=MHz', 'quantity=GHz', 'level_type=np.float32', 'level_type=np.int64', 'earlier_call_on_coarser_frame']
+                    'type=lorentzian', 'type=voigt', 'visible', 'quantity=MHz', 'quantity=GHz', 'level_type=np.float32', 'level_type=np.int64', 'earlier_call_on_coarser_frame', 'level<=1e-8']
 
 TYPES = ['sinc2', 'box', 'gaussian', 'lorentzian', 'voigt']
 
@@ -43,7 +43,7 @@ def strategy_(draw, tier):
                            # whole multiples of the unit drift rate: the sub-step count sits on a rounding edge
                            st.integers(-4, 4).map(float), st.integers(-4, 4).map(float)))
     width = draw(st.one_of(gen.finite(0.05, 0.5), gen.finite(0.5, 1.0), gen.finite(1.0, 10.0)))
-    return dict(g=g, start=start, drift=drift, level=draw(st.one_of(st.just(1.0), gen.finite(0.1, 50))),
+    return dict(g=g, start=start, drift=drift, level=draw(st.one_of(st.just(1.0), gen.finite(0.1, 50), gen.finite(0.1, 50), st.sampled_from([4e-9, 9.9e-9, 2.5e-23]))),
                 width=width, type=draw(st.sampled_from(TYPES)), smear=draw(st.booleans()),
                 quantity=draw(st.sampled_from([None, None, 'Hz', 'kHz', 'MHz', 'GHz'])),
                 level_type=draw(st.sampled_from(['float', 'float', 'int', 'np.float32', 'np.int64', 'np.float64'])),
@@ -98,6 +98,8 @@ def run_case(case, ctx):
                    'np.int64': np.int64(max(1, int(case['level']))), 'np.float64': np.float64(case['level'])}[lt]
     case = dict(case, level=float(level_value))       # the value every reference uses
     obs.cls('level_type=' + lt)
+    if case['level'] <= 1e-8:
+        obs.cls('level<=1e-8')
     qn = case.get('quantity')
     if qn is True:
         qn = 'Hz'
